@@ -85,6 +85,10 @@ pub struct Obs {
     pub excluded: bool,
     /// hash of the *decoded* case when the sub provides one (distinctness is judged on it)
     pub case_hash: Option<u64>,
+    /// a sub that enumerates a whole block of cases internally reports them here
+    /// (distinct by construction: every enumerated case is visited once)
+    pub extra_evals: u64,
+    pub extra_nontrivial: u64,
 }
 
 impl Obs {
@@ -198,6 +202,7 @@ struct JobStats {
     evaluations: u64,
     excluded: u64,
     nontrivial: u64,
+    extra_nontrivial: u64,
     labels: BTreeMap<&'static str, u64>,
     samples: Vec<Value>,
     exhaustive: bool,
@@ -257,7 +262,9 @@ fn run_case(
         if obs.excluded {
             st.excluded += 1;
         } else {
-            st.evaluations += 1;
+            st.evaluations += 1 + obs.extra_evals;
+            st.extra_nontrivial += obs.extra_nontrivial;
+            st.nontrivial += obs.extra_nontrivial;
             if obs.nontrivial {
                 let h = obs.case_hash.unwrap_or_else(|| input.hash());
                 if hashes.insert(h) {
@@ -414,7 +421,7 @@ pub fn worker_main(prop: &PropDef, tier: Tier, seed: u64, shard: u64, nshards: u
     let v = json!({
         "jobs": stats.iter().map(|s| json!({
             "sub": s.sub, "kind": s.kind, "bound": s.bound, "smallbuf": s.smallbuf,
-            "evaluations": s.evaluations, "excluded": s.excluded, "nontrivial": s.nontrivial,
+            "evaluations": s.evaluations, "excluded": s.excluded, "nontrivial": s.nontrivial, "extra_nontrivial": s.extra_nontrivial,
             "labels": s.labels.iter().map(|(k, v)| (k.to_string(), json!(v))).collect::<serde_json::Map<String, Value>>(),
             "samples": s.samples, "exhaustive": s.exhaustive, "wall_s": s.wall_s,
         })).collect::<Vec<_>>(),
@@ -548,13 +555,19 @@ pub fn parent_main(prop: &PropDef, tier: Tier, seed: u64) -> i32 {
         spawn(sb.as_ref().unwrap(), true, n_small);
     }
     let mut inconclusive = false;
+    let mut hang_confirmed = false;
     let mut merged: BTreeMap<String, Value> = BTreeMap::new();
     let mut all_hashes: HashSet<u64> = HashSet::new();
     for (mut c, out, small, shard) in children {
         let st = c.wait();
         let code = st.ok().and_then(|s| s.code());
+        if code == Some(3) && hang_confirmed {
+            inconclusive = true;
+            continue;
+        }
         if code == Some(3) {
-            // stalled case: confirm in a fresh process with a longer limit
+            // stalled case: confirm (once per run) in a fresh process with a longer limit
+            hang_confirmed = true;
             let hang = out.with_extension("hang");
             if let Ok(text) = std::fs::read_to_string(&hang) {
                 if let Ok(v) = serde_json::from_str::<Value>(&text) {
@@ -618,8 +631,8 @@ pub fn parent_main(prop: &PropDef, tier: Tier, seed: u64) -> i32 {
         }
         for j in v["jobs"].as_array().cloned().unwrap_or_default() {
             let key = format!("{}{}", j["sub"].as_str().unwrap_or(""), if j["smallbuf"].as_bool().unwrap_or(false) { "@B32" } else { "" });
-            let e = merged.entry(key).or_insert_with(|| json!({"sub": j["sub"], "kind": j["kind"], "bound": j["bound"], "smallbuf": j["smallbuf"], "evaluations": 0u64, "excluded": 0u64, "nontrivial": 0u64, "labels": {}, "samples": [], "exhaustive": j["exhaustive"], "wall_s": 0.0}));
-            for k in ["evaluations", "excluded", "nontrivial"] {
+            let e = merged.entry(key).or_insert_with(|| json!({"sub": j["sub"], "kind": j["kind"], "bound": j["bound"], "smallbuf": j["smallbuf"], "evaluations": 0u64, "excluded": 0u64, "nontrivial": 0u64, "extra_nontrivial": 0u64, "labels": {}, "samples": [], "exhaustive": j["exhaustive"], "wall_s": 0.0}));
+            for k in ["evaluations", "excluded", "nontrivial", "extra_nontrivial"] {
                 e[k] = json!(e[k].as_u64().unwrap_or(0) + j[k].as_u64().unwrap_or(0));
             }
             if !j["exhaustive"].as_bool().unwrap_or(false) {
@@ -684,6 +697,7 @@ pub fn parent_main(prop: &PropDef, tier: Tier, seed: u64) -> i32 {
     // evidence
     let total_eval: u64 = merged.values().map(|j| j["evaluations"].as_u64().unwrap_or(0)).sum();
     let total_excl: u64 = merged.values().map(|j| j["excluded"].as_u64().unwrap_or(0)).sum();
+    let total_extra_nt: u64 = merged.values().map(|j| j["extra_nontrivial"].as_u64().unwrap_or(0)).sum();
     let mut samples: Vec<Value> = Vec::new();
     for j in merged.values() {
         if let Some(sa) = j["samples"].as_array() {
@@ -711,7 +725,7 @@ pub fn parent_main(prop: &PropDef, tier: Tier, seed: u64) -> i32 {
         "level": "exploration",
         "coverage": {
             "evaluations": total_eval + regress_n,
-            "distinct_nontrivial": all_hashes.len(),
+            "distinct_nontrivial": all_hashes.len() as u64 + total_extra_nt,
             "rule": prop.rule,
             "samples": samples,
             "labels": labels,
@@ -742,7 +756,7 @@ pub fn parent_main(prop: &PropDef, tier: Tier, seed: u64) -> i32 {
     if exit == 0 {
         println!(
             "OK property={} tier={} seed={} evaluations={} distinct_nontrivial={} wall={:.1}s",
-            prop.id, tier_s, seed, total_eval + regress_n, all_hashes.len(), wall
+            prop.id, tier_s, seed, total_eval + regress_n, all_hashes.len() as u64 + total_extra_nt, wall
         );
     }
     exit
